@@ -38,9 +38,9 @@ Full(sp) == [n \in OptNames |->
                ELSE Default(n)]
 
 UnknownOK(u) == \A i \in DOMAIN u : u[i].state # "injected"
-Obs == Full(Ev.cfg)
+ObsOf(e) == IF e.ev \in {"loaded", "implied", "final"} THEN Full(e.cfg) ELSE Defaults
 
-Accepts ==
+Accepts(Obs) ==
     CASE Ev.ev = "loaded"  -> Precedence(lay, Obs)
       [] Ev.ev = "implied" -> TRUE
       [] Ev.ev = "final"   -> /\ OfflineConsistent(Obs) /\ OutputConsistent(Obs) /\ ObfuscationConsistent(Obs)
@@ -58,9 +58,10 @@ ObservedFrom(n, v) ==
     ELSE IF n \in DOMAIN FileLayer(lay) /\ FileLayer(lay)[n] = v THEN "file"
     ELSE IF v = Default(n) THEN "default" ELSE "other:" \o v.t
 Pick1(Sx) == CHOOSE x \in Sx : TRUE
-Diagnose ==
+Diagnose(Obs) ==
     CASE Ev.ev = "loaded" ->
-           (LET n == Pick1({m \in OptNames : ~PrecedenceAt(lay, Obs, m)}) IN
+           (LET L == Layers(lay)
+                n == Pick1({m \in OptNames : Obs[m] # ResolveIn(L, m)}) IN
             "Precedence:type=" \o TypeOf(n) \o ":cli=" \o CliKind(n) \o ":given-in=" \o RawSources(n) \o
             ":file=" \o (IF FileUsable(lay) THEN "used" ELSE "dropped") \o
             ":expected-from=" \o Source(lay, n) \o ":observed-from=" \o ObservedFrom(n, Obs[n]))
@@ -79,7 +80,7 @@ Diagnose ==
 
 (* ---- design notes (never verdicts) ---- *)
 NoteOpts == TableOpts \cup ({"legacy_upload", "net_debug", "analyze_container"} \cap OptNames)
-Note ==
+Note(Obs) ==
     CASE Ev.ev = "implied" ->
            (LET d == ImplyF(cfg, "ansible_host" \in Names(lay.cli))
                 bad == {n \in NoteOpts : T(d[n]) # T(Obs[n])} IN
@@ -108,10 +109,12 @@ TraceNext ==
     /\ tid <= Len(Batch)
     /\ IF ~More
          THEN TLCSet(2, TLCGet(2) + l) /\ Advance
-         ELSE /\ IF Accepts THEN (IF Note # "" THEN Record(Note) ELSE TRUE) ELSE Record(Diagnose)
+         ELSE LET o == ObsOf(Ev) IN      \* the observed configuration, built once per event
+              /\ IF Accepts(o) THEN (LET nt == Note(o) IN IF nt # "" THEN Record(nt) ELSE TRUE)
+                               ELSE Record(Diagnose(o))
               /\ lay' = lay
-              /\ cfg' = IF Ev.ev \in {"loaded", "implied", "final"} THEN Obs ELSE cfg
-              /\ loaded' = IF Ev.ev = "loaded" THEN Obs ELSE loaded
+              /\ cfg' = IF Ev.ev \in {"loaded", "implied", "final"} THEN o ELSE cfg
+              /\ loaded' = IF Ev.ev = "loaded" THEN o ELSE loaded
               /\ phase' = CASE Ev.ev = "loaded" -> "loaded" [] Ev.ev = "implied" -> "implied"
                             [] Ev.ev = "final" -> "ok" [] OTHER -> "error"
               /\ l' = l + 1 /\ tid' = tid
